@@ -273,9 +273,9 @@ func rulesC13(c *Ctx) {
 				parentOK = true
 			}
 			frac := false
-			switch d := ast.Unparen(call.Args[1]).(type) {
+			switch d := ast.Unparen(loop.valueOf(call.Args[1])).(type) {
 			case *ast.BinaryExpr:
-				if k, isC := loop.ConstInt(d.Y); d.Op == token.QUO && loop.ObjOf(d.X) == types.Object(interval) && isC && k >= 1 {
+				if k, isC := loop.ConstInt(d.Y); d.Op == token.QUO && loop.ObjOf(loop.valueOf(d.X)) == types.Object(interval) && isC && k >= 1 {
 					frac = true
 				}
 			case *ast.Ident:
